@@ -12,7 +12,8 @@ func init() {
 	navNames := map[string]string{"a": "previous-history", "b": "next-history", "c": "beginning-of-history", "d": "end-of-history",
 		"e": "history-search-backward", "f": "history-search-forward", "g": "history-substring-search-backward", "h": "history-substring-search-forward"}
 	var binds []Bind
-	for _, k := range []string{"a", "b", "c", "d", "e", "f", "g", "h"} {
+	navNames["i"], navNames["j"] = "non-incremental-reverse-search-history", "non-incremental-forward-search-history"
+	for _, k := range []string{"a", "b", "c", "d", "e", "f", "g", "h", "i", "j"} {
 		binds = append(binds, Bind{Seq: `\C-x\C-z` + k, Cmd: navNames[k]})
 	}
 	pool := []string{"one", "two", "one two", "three", "one", "tw", "a\nb", "é中", "o", "cat a.c", "make abc", "ls *.go", "echo HOME$", "x (y"}
@@ -68,6 +69,33 @@ func init() {
 				nav = append(nav, "\x1b")
 				c := Case{Specs: []Spec{sp}, Keys: hexChunks(nav), Class: fmt.Sprintf("%s/entries=%d", part, len(ls)),
 					Meta: map[string]string{"part": part, "typed": typed, "kind": cmds, "text": text}}
+				c.Specs[0].Chunks = c.Keys
+				return c
+			}
+			if r.Intn(6) == 0 {
+				// non-incremental searches: Vim / ? then n N (the search string is remembered), Emacs M-p M-n
+				part = "nonincr"
+				typed = ""
+				text := []string{"a", "o", "t", "ne", "ab", "make", "one", "zz", "a.c"}[r.Intn(9)]
+				var nav []string
+				if r.Intn(3) > 0 {
+					sp.Mode = "vi"
+					part += "/vi"
+					nav = append(nav, "\x1b", []string{"/", "?"}[r.Intn(2)])
+				} else {
+					nav = append(nav, []string{"\x18\x1ai", "\x18\x1aj"}[r.Intn(2)])
+				}
+				for _, ch := range text {
+					nav = append(nav, string(ch))
+				}
+				nav = append(nav, "\r")
+				if sp.Mode == "vi" {
+					for k := r.Intn(5); k > 0; k-- {
+						nav = append(nav, []string{"n", "N"}[r.Intn(2)])
+					}
+				}
+				c := Case{Specs: []Spec{sp}, Keys: hexChunks(nav), Class: fmt.Sprintf("%s/entries=%d", part, len(ls)),
+					Meta: map[string]string{"part": "nonincr", "typed": typed, "kind": cmds, "text": text, "start": fmt.Sprint(len(nav) - strings.Count(strings.Join(nav[2:], ""), "n") - strings.Count(strings.Join(nav[2:], ""), "N"))}}
 				c.Specs[0].Chunks = c.Keys
 				return c
 			}
@@ -154,6 +182,64 @@ func init() {
 					fs = append(fs, Finding{"C09", "history-modified", fmt.Sprintf("history %q became %q", entries, tr.Sources[0][0]), c})
 				}
 				return fs
+			}
+			if c.Meta["part"] == "nonincr" {
+				// the search string is what was typed between the key that opens the minibuffer and RET (the script may
+				// have been shrunk): every buffer shown once the minibuffer is closed is empty or a stored entry containing it
+				raw := unhex(nav)
+				k0, first := -1, -1
+				for k := range nav {
+					ch := unhex(nav[k : k+1])
+					if k0 < 0 && (ch == "/" || ch == "?" || ch == "\x18\x1ai" || ch == "\x18\x1aj") {
+						k0 = k
+					} else if k0 >= 0 && ch == "\r" {
+						first = k + 1
+						break
+					}
+				}
+				if k0 < 0 || first < 0 || first >= len(tr.Waits) || strings.Trim(unhex(nav[first:]), "nN") != "" {
+					stat("skipped: not a non-incremental search any more (shrunk)")
+					return nil
+				}
+				opener := unhex(nav[k0 : k0+1])
+				backward := opener == "?" || opener == "\x18\x1ai"
+				text := unhex(nav[k0+1 : first-1])
+				if text == "" || strings.ContainsAny(text, "\x1b\x18\r") {
+					stat("skipped: no search text")
+					return nil
+				}
+				if len(tr.Results) != 1 || tr.Results[0].Err != "end-of-script" {
+					stat("skipped: the call returned")
+					return nil
+				}
+				for w := first; w < len(tr.Waits) && w <= len(nav); w++ {
+					if tr.Waits[w].Local != "" {
+						stat("skipped: minibuffer still open")
+						return nil
+					}
+					got := tr.Waits[w].Line
+					ok := got == ""
+					for _, e := range entries {
+						if got == e && strings.Contains(e, text) {
+							ok = true
+						}
+					}
+					stat("decided: non-incremental search step")
+					if !ok {
+						return []Finding{{"C09", "search-shows-non-match/non-incremental", fmt.Sprintf("history %q, keys %q (search string %q): after %q the buffer is %q, neither empty nor a stored entry containing the string", entries, raw, text, unhex(nav[:w]), got), c}}
+					}
+					if w == first && got == "" && backward {
+						for _, e := range entries {
+							if strings.Contains(e, text) {
+								return []Finding{{"C09", "search-misses-match/non-incremental", fmt.Sprintf("history %q, keys %q: buffer still empty although %q contains %q", entries, raw, e, text), c}}
+							}
+						}
+					}
+				}
+				if len(tr.Sources) > 0 && !eqLines(tr.Sources[0][0], entries) && !(len(entries) == 0 && len(tr.Sources[0][0]) == 0) {
+					return []Finding{{"C09", "history-modified", fmt.Sprintf("history %q became %q", entries, tr.Sources[0][0]), c}}
+				}
+				return nil
 			}
 			if c.Meta["part"] == "walk-after-accept" {
 				var j int
